@@ -35,11 +35,39 @@ def check(run):
                        'for status 200 and a well-formed, <=16 KiB header block', 9)
     R.rule('C19.silent', 'nothing else is sent on the proxy socket before the return; TLS to the target after the loop', 2)
     R.rule('C19.order', 'build_request only from _send_request, only from run(), after _connect() returned normally', 4)
+    R.rule('C19.private', 'the proxy socket is not published to the session before the tunnel is up (other threads\' '
+                          'sends would reach the proxy); an explicit (even empty) proxies mapping is used as given', 6)
+    from . import C09
+    with R.as_rule('C19.private'):
+        C09.socknull(R)
+    proxies_arg(R)
     choice(R)
     connect(R)
     gate(R)
     silent(R)
     order(R)
+
+
+def proxies_arg(R):
+    q = 'websocket.WebSocket.__init__'
+    g = R.cfg(q)
+    from .common import value_cases
+    st = [n for n in g.live_nodes() if n.kind == 'stmt' and isinstance(n.ast, ast.Assign) and U(n.ast.targets[0]) == 'self.proxies']
+    need(len(st) >= 1, 'WebSocket.__init__: self.proxies not assigned')
+    ok = True
+    seen = set()
+    for n in st:
+        for (conds, val, site) in value_cases(R, g, n, n.ast.value):
+            gl = set(conds) | {(t, p) for (t, p, _) in guards_of(g, n)}
+            if U(val) == 'proxies' and ('proxies is None', False) in gl:
+                seen.add('given')
+            elif isinstance(val, ast.Call) and 'detect_proxies' in U(val.func) and ('proxies is None', True) in gl:
+                seen.add('detect')
+            else:
+                ok = False
+    R.ob('C19.private', 'proxies used as given unless None', ok and seen == {'given', 'detect'},
+         'self.proxies = %s: an explicitly passed empty mapping must disable proxying (environment detection only when '
+         'proxies is None)' % [U(n.ast.value) for n in st], func=q, node=st[0].ast)
 
 
 def choice(R):
